@@ -1,6 +1,6 @@
 """C10 - FST files load faithfully."""
 import itertools
-from .. import core, gen
+from .. import core, gen, designs
 from . import vcdfam, c06, c12
 
 PID = "C10"
@@ -11,14 +11,20 @@ RULE = ("(1) value sequences are fed to fst::SignalWriter (hook; the values as t
         "sufficient kinds, independent of the order in which kinds first appear; the Gallina model of add_change / expand_entries / "
         "finish is run on the same sequences. (2) every corpus FST file that has a VCD twin is loaded and compared with the VCD load "
         "(tree, time table x timescale, value at every time). (3) the FST corpus files go through load/unload histories (C07), "
-        "all entry points (C14) and serde (C17). The FST container (blocks, compression, hierarchy bytes, time chain) is the "
-        "dependency's and is not modelled. Non-trivial: a sequence whose kinds widen at least once; distinct sequences / files.")
+        "all entry points (C14) and serde (C17). (4) random designs (scope tree with all 22 scope types, components, source "
+        "locators; variables of all 28 usable FST type codes, six directions, ranges, aliases, enum tables, VHDL type attributes, "
+        "reals incl. +-0, strings; 1..n value change blocks, initial values in the frame or as changes, gzip/lz4 hierarchy, zlib "
+        "or raw streams, every timescale exponent class) are written as FST files by vlib/filegen.py and loaded; the full listing "
+        "(harness command wfull) must equal the listing computed from the design. The FST container is decoded by the "
+        "dependency fst-reader and is not modelled in Coq. Non-trivial: a sequence whose kinds widen at least once; distinct sequences / files.")
 ASSUMPTIONS = ["A-fst: the dependency fst-reader 0.8.7 decodes the container correctly and delivers per-signal time-ordered callbacks",
                "VCD twins were produced by vcd2fst (third party)"]
-TRUSTED_BASE = ["Python oracle (dedup + minimal kinds)", "comparison with the VCD twin (the VCD loader is the subject of C01)"]
+TRUSTED_BASE = ["Python oracle (dedup + minimal kinds)", "Python FST writer and expected listing (vlib/filegen.py, vlib/designs.py)", "comparison with the VCD twin (the VCD loader is the subject of C01)"]
 
 
 def run(res, rng, tier, model_ok, replay=None):
+    if replay and designs.replay_filecase(res, replay, "c10f"):
+        return
     if replay:
         line = replay.get("case") or replay["broken_correspondence"]["case"]
         vcdfam.run_both(res, [{"line": line}], "c10", model_ok)
@@ -58,7 +64,10 @@ def run(res, rng, tier, model_ok, replay=None):
             res.violations.append(("wobs " + b, why, "the VCD twin " + a, "an FST file loads differently from its VCD twin"))
         else:
             res.nontrivial.add(b)
-    res.samples = [c["line"][:200] for c in cases[:2]] + ["wobs " + pairs[0][1]]
+    # (4) generated FST files (hierarchy with every scope / variable type, directions, aliases, enum tables, source
+    # locators, VHDL type names; several value change blocks, frames, compression variants), full listing vs design
+    designs.run_file_cases(res, designs.fst_cases(rng, tier), "c10f")
+    res.samples = [c["line"][:200] for c in cases[:2]] + ["wobs " + pairs[0][1]] + res.samples[-1:]
 
 
 def check_known(entry):
